@@ -259,3 +259,25 @@ package graphql
 //@   nosafety
 //@   ensures result.hasVariables <==> ((len(argDefs) != 0 || len(argASTs) != 0) && astHasVariables_0(argASTs))
 //@   ensures result.hasVariables ==> result.argASTs == argASTs && result.fieldDefArgs == argDefs
+
+// ---- memo tables of the overlapping-fields rule (C02 soundness of memo hits, C19 memo effectiveness) ----
+
+//@ func fieldsAndFragmentSet.Has
+//@   props C02 C19 C09:safety
+//@   requires s != nil
+//@   assigns nothing
+//@   nopanic
+//@   ensures result <==> (has(s.data, fields) && s.data[fields] != nil && has(s.data[fields], fragmentName) && (areMutuallyExclusive || !s.data[fields][fragmentName]))
+
+//@ func fieldsAndFragmentSet.Add
+//@   props C02 C19 C09:safety
+//@   requires s != nil && s.data != nil
+//@   nopanic
+//@   ensures has(s.data, fields) && s.data[fields] != nil && has(s.data[fields], fragmentName) && s.data[fields][fragmentName] == areMutuallyExclusive
+
+//@ func pairSet.Has
+//@   props C02 C19 C09:safety
+//@   requires pair != nil
+//@   assigns nothing
+//@   nopanic
+//@   ensures result <==> (has(pair.data, a) && pair.data[a] != nil && has(pair.data[a], b) && (areMutuallyExclusive || !pair.data[a][b]))
